@@ -107,16 +107,18 @@ def nthNumbers (ns ne : List Bool) : List Int :=
 def weekDayRange : WeekDayRange → List Char
   | .fixed lo hi offset ns ne =>
     wdayStr lo ++ (if lo ≠ hi then '-' :: wdayStr hi else [])
-      ++ (if ns.contains false || ne.contains false then
+      ++ (if ns.contains false || ne.contains false || offset ≠ 0 then
             ['['] ++ selector intStr (nthNumbers ns ne) ++ [']']
           else [])
       ++ daysOffset offset
   | .holiday kind offset =>
     (match kind with | .pub => str "PH" | .school => str "SH") ++ daysOffset offset
 
-/-- `weeknum_iter.next().unwrap()` fails: some position is false and none is true -/
+/-- `weeknum_iter.next().unwrap()` fails: the brackets are written (some position is false, or there
+is a day offset) and no position is true -/
 def weekDayRangePanics : WeekDayRange → Bool
-  | .fixed _ _ _ ns ne => (ns.contains false || ne.contains false) && (nthNumbers ns ne).isEmpty
+  | .fixed _ _ offset ns ne =>
+    (ns.contains false || ne.contains false || offset ≠ 0) && (nthNumbers ns ne).isEmpty
   | .holiday _ _ => false
 
 def weekRange (r : WeekRange) : List Char :=
